@@ -151,6 +151,22 @@ pub const ILL_TYPED_TEXTS: &[(&str, &str)] = &[
     ("unused private fn between pub items", "pub fn main(x: u8) -> u8 {\n  x\n}\npub struct S { a: u8 }\nstruct T { b: u8 }\nfn unused(t: T) -> u8 {\n  t.b\n}\n"),
     ("enum pattern arity", "enum E { A, B(u8) }\npub fn main(e: E, x: u8) -> u8 {\n  match e {\n    E::A => x,\n    E::B(a, b) => a,\n  }\n}\n"),
     ("enum pattern of another enum", "enum E { A, B(u8) }\nenum F { A, B(u8) }\npub fn main(e: E, x: u8) -> u8 {\n  match e {\n    F::A => x,\n    F::B(a) => a,\n  }\n}\n"),
+    ("struct pattern misses a field (let)", "struct S { a: u8, b: u8 }\npub fn main(s: S, x: u8) -> u8 {\n  let S { a } = s;\n  a + x\n}\n"),
+    ("struct pattern misses its first field (let)", "struct S { a: u8, b: u8 }\npub fn main(s: S, x: u8) -> u8 {\n  let S { b } = s;\n  b + x\n}\n"),
+    ("struct pattern misses a field (match)", "struct S { a: u8, b: u8 }\npub fn main(s: S, x: u8) -> u8 {\n  match s {\n    S { a: 0u8 } => x,\n    S { a, b } => a + b,\n  }\n}\n"),
+    ("struct pattern misses all fields", "struct S { a: u8, b: u8 }\npub fn main(s: S, x: u8) -> u8 {\n  let S { } = s;\n  x\n}\n"),
+    ("nested struct pattern misses a field", "struct S { a: u8, b: u8 }\nstruct T { s: S, c: u8 }\npub fn main(t: T, x: u8) -> u8 {\n  let T { s: S { b }, c } = t;\n  b + c + x\n}\n"),
+    ("struct pattern in an enum pattern misses a field", "struct S { a: u8, b: u8 }\nenum E { V(S), W }\npub fn main(e: E, x: u8) -> u8 {\n  match e {\n    E::V(S { a }) => a + x,\n    E::W => x,\n  }\n}\n"),
+    ("struct pattern in a for loop misses a field", "struct S { a: u8, b: u8 }\npub fn main(ss: [S; 2], x: u8) -> u8 {\n  let mut r = x;\n  for S { a } in ss {\n    r = r ^ a;\n  }\n  r\n}\n"),
+    ("struct pattern in a tuple pattern misses a field", "struct S { a: u8, b: u8 }\npub fn main(s: S, x: u8) -> u8 {\n  let (S { b }, y) = (s, x);\n  b + y\n}\n"),
+    ("argument: array sized by another const expression", "const R: usize = 2usize;\nfn f(a: [u8; const { R + 1usize }]) -> u8 {\n  a[0]\n}\npub fn main(a: [u8; const { R + 2usize }]) -> u8 {\n  f(a)\n}\n"),
+    ("let annotation: array sized by another const expression", "const R: usize = 2usize;\npub fn main(a: [u8; const { R + 2usize }]) -> u8 {\n  let b: [u8; const { R + 1usize }] = a;\n  b[0]\n}\n"),
+    ("result: array sized by another const expression", "const R: usize = 2usize;\npub fn main(a: [u8; const { R + 2usize }]) -> [u8; const { R + 1usize }] {\n  a\n}\n"),
+    ("if branches: arrays sized by different const expressions", "const R: usize = 2usize;\npub fn main(a: [u8; const { R + 2usize }], b: [u8; const { R + 1usize }], c: bool) -> u8 {\n  let r = if c { a } else { b };\n  r[0]\n}\n"),
+    ("comparison of arrays sized by different const expressions", "const R: usize = 2usize;\npub fn main(a: [u8; const { R + 2usize }], b: [u8; const { R + 1usize }]) -> bool {\n  a == b\n}\n"),
+    ("argument: array sized by another constant", "const N: usize = 2usize;\nconst M: usize = 3usize;\nfn f(a: [u8; N]) -> u8 {\n  a[0]\n}\npub fn main(a: [u8; M]) -> u8 {\n  f(a)\n}\n"),
+    ("result: array sized by another constant", "const N: usize = 2usize;\nconst M: usize = 3usize;\npub fn main(a: [u8; M]) -> [u8; N] {\n  a\n}\n"),
+    ("argument: min(..) sized array for a max(..) sized parameter", "const N: usize = 2usize;\nconst M: usize = 3usize;\nfn f(a: [u8; const { max(N, M) }]) -> u8 {\n  a[0]\n}\npub fn main(a: [u8; const { min(N, M) }]) -> u8 {\n  f(a)\n}\n"),
     ("struct pattern of another struct", "struct S { a: u8 }\nstruct T { a: u8 }\npub fn main(s: S, x: u8) -> u8 {\n  let T { a } = s;\n  a + x\n}\n"),
     ("number pattern on bool", "pub fn main(b: bool, x: u8) -> u8 {\n  match b {\n    0u8 => x,\n    _ => x,\n  }\n}\n"),
     ("bool pattern on number", "pub fn main(x: u8) -> u8 {\n  match x {\n    true => x,\n    _ => x,\n  }\n}\n"),
@@ -622,7 +638,7 @@ impl M {
                     self.mark(format!("{ctx} unit variant pattern given a sub-pattern"));
                 }
             }
-            Pat::Struct(n, fs, _) => {
+            Pat::Struct(n, fs, dots) => {
                 if self.rule == Rule::UnknownStruct && self.hit() {
                     n.push_str("Nope");
                     self.mark(format!("{ctx} struct pattern name"));
@@ -632,6 +648,19 @@ impl M {
                     fs[0].0.push_str("_nope");
                     self.mark(format!("{ctx} struct pattern field"));
                     return;
+                }
+                // a struct pattern without `..` that leaves out a field (the first / the last one)
+                if self.rule == Rule::TuplePatArity && !*dots && !fs.is_empty() {
+                    if self.hit() {
+                        fs.pop();
+                        self.mark(format!("{ctx} struct pattern without `..` misses its last field"));
+                        return;
+                    }
+                    if fs.len() >= 2 && self.hit() {
+                        fs.remove(0);
+                        self.mark(format!("{ctx} struct pattern without `..` misses its first field"));
+                        return;
+                    }
                 }
                 for (_, x) in fs {
                     self.pat(x, ctx);
@@ -1629,7 +1658,7 @@ pub fn run(tier: Tier) -> i32 {
         coverage: json!({
             "evaluations": mutants,
             "distinct_nontrivial": rejected,
-            "rule": "base set = accepted, fully annotated programs of families S (n<=1), D (n<=1), P (n=1) and an enum/struct match program (thorough: n<=2); for each of 30 rule-breaking edit kinds (operand of a fresh nominal type, literal of another width, argument replaced/dropped/added, return type, tail expression, branch/arm types, non-Boolean condition, undefined identifier, use after scope, unknown field/struct/variant, dropped mut, struct literal field dropped/added/duplicated, pattern arity, refutable let/for/for-join pattern, self/mutual recursion, unused fn, pub fn without parameters, non-usize index, wrongly typed assignment) EVERY applicable site of every base program is mutated; ScopeModel: a reference model of lexical scoping computes the names in scope at every identifier use and assignment target, and each is rewritten to every name bound elsewhere in the program (other arm, other branch, inner block, loop pattern, later let, other function) but not in scope there; thorough adds two-edit combinations; distinct_nontrivial = mutants rejected with a non-empty type error list",
+            "rule": "base set = accepted, fully annotated programs of families S (n<=1), D (n<=1), P (n=1) and an enum/struct match program (thorough: n<=2); for each of 30 rule-breaking edit kinds (operand of a fresh nominal type, literal of another width, argument replaced/dropped/added, return type, tail expression, branch/arm types, non-Boolean condition, undefined identifier, use after scope, unknown field/struct/variant, dropped mut, struct literal field dropped/added/duplicated, pattern arity, refutable let/for/for-join pattern, self/mutual recursion, unused fn, pub fn without parameters, non-usize index, wrongly typed assignment) EVERY applicable site of every base program is mutated; ScopeModel: a reference model of lexical scoping computes the names in scope at every identifier use and assignment target, and each is rewritten to every name bound elsewhere in the program (other arm, other branch, inner block, loop pattern, later let, other function) but not in scope there; text sweeps: hand-written ill-typed texts, KindMeetsType (40 places an expression meets an expected type, incl. index / shift-amount positions, x 9 types x holes rooted in literals, unary and binary operators, blocks, if, match, casts; each with an accepted twin), SizeName (4 bad size names x 9 type shapes x 6 places a type is written, each with an accepted twin); thorough adds two-edit combinations; distinct_nontrivial = mutants rejected with a non-empty type error list",
             "samples": smp,
             "base_programs": bases.len(),
             "base_programs_accepted": base_ok,
